@@ -91,6 +91,7 @@ pub fn stop_text(s: &Stop) -> String {
         Stop::Domain { what, site } => format!("{} domain error in {}", what, site_fn(site)),
         Stop::Infeasible => "infeasible".into(),
         Stop::Budget(m) => format!("budget: {}", m),
+        Stop::Fence => "fence".into(),
     }
 }
 
